@@ -1,0 +1,12 @@
+//go:build verif
+
+package context
+
+/*@
+// In an HTTP pipeline the responses stored in the context are *httpprot.Response objects built by
+// httpprot.NewResponse (trusted: protocol-consistency of the context).
+func (ctx *Context) GetInputResponse() (resp protocols.Response)
+  trusted
+  pure
+  ensures resp != nil ==> typeIs(resp, "*httpprot.Response") && ifaceVal(resp) != 0 && ptr(ifaceVal(resp), "*httpprot.Response").Response != nil && ptr(ifaceVal(resp), "*httpprot.Response").Response.Header != nil
+@*/
